@@ -593,6 +593,10 @@ fn random_message_input(rng: &mut Rng) -> Vec<u8> {
     }
 }
 
+pub fn random_message_input_pub(rng: &mut Rng) -> Vec<u8> {
+    random_message_input(rng)
+}
+
 /// wire form of a data message value: offset n is written but (as the crate's encoder does)
 /// no pad octets are added
 pub fn enc_data_from_value(d: &Value, _rng: &mut Rng) -> Vec<u8> {
@@ -785,6 +789,7 @@ pub fn gen_main(args: &[String]) -> i32 {
         "fault" => crate::gen2::suite_fault(&mut out, tier, &mut rng),
         "threads" => crate::gen2::suite_threads(&mut out, tier, &mut rng),
         "decode_big" => crate::gen2::suite_decode_big(&mut out, tier, &mut rng),
+        "bits" => crate::gen2::suite_bits(&mut out, tier, &mut rng),
         "small_values" => crate::gen2::suite_small_values(&mut out, tier, &mut rng),
         "many_avps" => crate::gen2::suite_many_avps(&mut out, tier, &mut rng),
         "history" => crate::gen2::suite_history(&mut out, tier, &mut rng),
